@@ -41,6 +41,8 @@ def render(prog):
             lines.append("exit %d" % p["n"])
         elif k == "sete":
             lines.append("set -e")
+        elif k == "for":
+            lines += ["for w in " + " ".join(str(st(x)) for x in p["pat"]), "    vmk L%d $w %s" % (i, ARGS), "done"]
         elif k == "if":
             lines += ["if vmk C%d %d" % (i, st(p["cst"])), "    vmk B%d %d %s" % (i, st(p["st"]), ARGS), "fi"]
     files = {}
@@ -81,7 +83,8 @@ def expected(case):
         if fr == "cond":
             evs.append(("C%d" % i, None, i))
         elif fr == "script":
-            evs.append((("T%d" % i) if j == 0 else ("B%d" % i), "script", i))
+            kind = case["prog"][i - 1]["k"]
+            evs.append((("T%d" % i) if kind == "c" else ("B%d" % i) if kind == "if" else ("L%d" % i), "script", i))
         elif fr in FB:
             evs.append(("F%s.%d" % (fr, j), fr, i))
         else:
@@ -203,7 +206,7 @@ def runner(rep, tier, seed, replay):
 
 def guess_path(res):
     for r in res.get("log", []):
-        if r.get("h") == "mk" and r.get("id", "").startswith(("T", "B")) and r.get("argv"):
+        if r.get("h") == "mk" and r.get("id", "").startswith(("T", "B", "L")) and r.get("argv"):
             return r["argv"][0]
     return "?"
 
